@@ -142,6 +142,27 @@ def main():
     if not obls:
         vacuity_errors.append('zero obligations generated')
 
+    # thorough tier: must-fail probe with the FULL path condition (the canaries above probe its quantifier-free part only): the
+    # post-condition `False` is appended to every verified function; it must not be provable at every normal exit - if it is, the
+    # assumptions (axioms, contracts of callees, invariants, rely clauses) are inconsistent and every proof of that function is void
+    vacuity_probe = []
+    if tier == 'thorough' and os.environ.get('PYVC_NO_PROBE') != '1':
+        from pyvc.spec import Clause
+        pspec = contracts.build()
+        keys = []
+        for r in results:
+            C = pspec.functions[r.key]
+            if C.trusted or r.refused or C.file is None or r.exits.get('normal', 0) == 0:
+                continue
+            C.probe_ensures = [Clause.of(('VACUITY_PROBE', 'False', ['VACUITY']))]       # body-only: callers do not see it
+            keys.append(r.key)
+        if keys:
+            for pr in verify.verify_many(pspec, keys, axioms + smt.literal_axioms(), 8000, pid='VACUITY'):
+                vs = [o.verdict for o in pr.obligations if o.name.endswith('/ensures:VACUITY_PROBE')]
+                vacuity_probe.append({'function': pr.key, 'normal_exits_probed': len(vs), 'false_proved_at': sum(1 for v in vs if v == 'unsat')})
+                if vs and all(v == 'unsat' for v in vs):
+                    vacuity_errors.append('%s: `false` is provable from the full path condition at every normal exit: assumptions are inconsistent' % pr.key)
+
     kfs = load_known_findings()
     violations, known, undecided = [], [], []
     for name, c in sorted(clauses.items()):
@@ -235,6 +256,7 @@ def main():
         'known_findings_hit': [{'id': k['id'], 'obligation': o.name} for k, o in known],
         'undecided': [o.name for o in undecided][:50],
         'refused': refused,
+        'vacuity_probe_full_path_condition': vacuity_probe,
         'vacuity': {'canaries_sat': sum(1 for c in canaries if c.verdict in ('sat', 'sat*')), 'canaries': len(canaries), 'errors': vacuity_errors},
         'not_decided_clauses': P.get('not_decided', []),
         'bounded': P.get('bounded', []),
